@@ -313,7 +313,13 @@ def scopeOps : List Op :=
 example : staysAbove Tables.current RenderCfg.current tabGen.ctx.depth tabGen scopeOps = true := by decide
 example : noTabWriteAt Tables.current RenderCfg.current tabGen.ctx.depth tabGen scopeOps = true := by decide
 example : scopeHanded Tables.current RenderCfg.current tabGen.ctx.depth tabGen scopeOps = [5, 6, 7] := by decide
-/-- the nested block handed out 50, 51 of its own -/
-example : handed Tables.current RenderCfg.current tabGen scopeOps ≠ [5, 6, 7] := by decide
+/-- `handed` is the notion for histories of TAG CALLS ONLY (`tabindex_increasing` asks for `isTag`
+    everywhere): it emits the counter at every op that changes the context, so on this mixed
+    history it also lists the counter in force at `set` (6), `begin` (6) and `end` (52) next to the
+    values the tags got (5 · 50 51 · 6 7).  Mixed histories are what `scopeHanded` is for. -/
+example : handed Tables.current RenderCfg.current tabGen scopeOps = [5, 6, 6, 50, 51, 52, 6, 7] := by decide
+/-- the nested block's own scope (one level deeper, from the generator as `begin` leaves it): 50, 51 -/
+example : scopeHanded Tables.current RenderCfg.current (tabGen.ctx.depth + 1)
+    (run Tables.current RenderCfg.current tabGen (scopeOps.take 3)).1 [tagInput [], tagInput []] = [50, 51] := by decide
 
 end Flatland.C19.Proofs
